@@ -9,7 +9,7 @@
    "for every history / schedule" = [reachable]: any number of [impl_step]s from [init_state prog picks breaks],
    for every program, every pick oracle (Math.random in $select) and every time-slice oracle ($runScheduled). *)
 From Coq Require Import List NArith ZArith Bool Arith.
-From Verif Require Import Model.C03_Chan Proofs.C03_Chan.
+From Verif Require Import Model.C03_Chan Model.C03_Spec Model.C03_Abs Proofs.C03_Chan Proofs.C03_P4_Entries Proofs.C03_P4_Count Proofs.C03_P4_Deadlock Proofs.C03_P4_Refine.
 Import ListNotations.
 
 (* Channel invariants in every reachable state:
@@ -51,7 +51,7 @@ Theorem C03_close_witnesses :
 Proof. exact (conj f7_repaired f6_repaired). Qed.
 Print Assumptions C03_close_witnesses.
 
-(* Deadlock report.  Full statement (NOT proved; checked on every run by the reference LTS in c03_spec.py):
+(* Deadlock report.  Full statement (phase 4: PROVED below as C03_deadlock_report_iff; also checked on every run by the reference LTSs):
    the runtime halts with the fatal error exactly when main has not finished and no goroutine can ever proceed. *)
 Definition C03_deadlock_report_iff_full_statement : Prop :=
   forall prog st, reachable repaired prog st ->
@@ -59,17 +59,104 @@ Definition C03_deadlock_report_iff_full_statement : Prop :=
      ((main_finished st = false) /\ (scheduled st = []) /\ (forall g, ~ In (TWake g) (timers st)) /\
       (forall g, (g < length (gors st))%nat -> g_asleep (get_g st g) = true) /\ no_lost_wakeup_at st /\ (md st = MIdle))).
 
-(* _partial: the report is made only when $awakeGoroutines = 0 and main has not finished; together with
-   C03_no_lost_wakeup no sleeping goroutine can proceed in that state.  Missing for the full statement: the counting
-   invariant awake = #(goroutines not asleep) + #(pending Gosched timers), and the converse direction. *)
+(* _partial (phase 2, kept): the report is made only when $awakeGoroutines = 0 and main has not finished.  The counting
+   invariant and the converse direction that were missing are C03_counting_invariant / C03_deadlock_report_iff below. *)
 Theorem C03_deadlock_report_sound_partial : forall prog st,
   reachable repaired prog st -> halted st = Some ODeadlock -> awake st = 0%Z /\ main_finished st = false.
 Proof. exact (deadlock_report_sound_partial repaired). Qed.
 Print Assumptions C03_deadlock_report_sound_partial.
 
-(* Refinement of the textbook LTS of Go channels: NOT proved in Coq.  The statement is checked per run by
-   harness/py/c03_spec.py (is the observed behaviour of every goroutine a path of the LTS, ending in a state where
-   no unfinished goroutine is enabled, with the right report?) on every generated history. *)
+(* ---------------------------------------------------------------- phase 4 *)
+(* The whole-scheduler counting invariant: in every reachable state $awakeGoroutines is exactly the number of goroutines
+   that are not asleep plus the number of pending Gosched timers ($setTimeout's token). *)
+Theorem C03_counting_invariant : forall prog st, reachable repaired prog st ->
+  awake st = (Z.of_nat (length (filter (fun x => negb (g_asleep x)) (gors st))) +
+              Z.of_nat (length (filter (fun t => match t with TWake _ => true | TRun _ => false end) (timers st))))%Z.
+Proof. exact counting_invariant_repaired. Qed.
+Print Assumptions C03_counting_invariant.
+
+(* The deadlock report, FULL statement: the runtime halts with "all goroutines are asleep" exactly when main has not
+   finished, nothing is scheduled, no Gosched timer is pending, every goroutine is asleep (none of which can proceed, by
+   no-lost-wakeup) and control is back in the event loop. *)
+Theorem C03_deadlock_report_iff : C03_deadlock_report_iff_full_statement.
+Proof. exact deadlock_report_iff. Qed.
+Print Assumptions C03_deadlock_report_iff.
+
+(* No stale registrations (the converse of C03_registration): every entry in a channel's wait queue is the
+   registration of a goroutine that sleeps on exactly that operation (plain send/receive, or that case of its select). *)
+Theorem C03_no_stale_entries : forall prog st, reachable repaired prog st ->
+  forall c, (forall e, In e (sq st c) -> sentry_ok st c e) /\ (forall e, In e (rq st c) -> rentry_ok st c e).
+Proof. exact (fun prog st => no_stale_entries repaired prog st repaired_fix). Qed.
+Print Assumptions C03_no_stale_entries.
+
+(* Whole-queue and run-queue invariant: entries are exact and duplicate-free; blocked goroutines are asleep; $scheduled holds
+   existing, awake goroutines without duplicates; the running goroutine is awake and not in $scheduled; a pending Gosched timer
+   belongs to a goroutine blocked on that timer, at most one per goroutine. *)
+Theorem C03_entries_invariant : forall prog st, reachable repaired prog st -> ent_ok st /\ run_ok st.
+Proof. exact (fun prog st => entries_invariant repaired prog st repaired_fix). Qed.
+Print Assumptions C03_entries_invariant.
+
+Theorem C03_scheduled_awake : forall prog st, reachable repaired prog st ->
+  forall g, In g (scheduled st) -> g < length (gors st) /\ g_asleep (get_g st g) = false.
+Proof. exact (fun prog st => scheduled_awake repaired prog st repaired_fix). Qed.
+Print Assumptions C03_scheduled_awake.
+
+(* Refinement of the reference LTS of Go channels (Model/C03_Spec.v: capacity + FIFO buffer + closed flag, unbuffered
+   rendezvous, select with free choice among the cases that can proceed, panics) through the abstraction Model/C03_Abs.abs.
+   FULL statement (NOT proved in general; evaluated by Coq on every explored history, Corr/C03_SpecEval.spec_verdict):
+   every step of the implementation is the sequence of spec steps [actions_of] between the abstractions of the two
+   states, emitting exactly the events the step logged. *)
+Definition C03_impl_refines_spec_full_statement : Prop :=
+  forall prog st, reachable repaired prog st ->
+    ssteps prog (abs st) (actions_of repaired prog st)
+    = Some (abs (impl_step repaired prog st), new_events st (impl_step repaired prog st)).
+
+(* _partial: proved for every reachable state, for the steps [covered]: all scheduler steps except the Gosched timer
+   callback, the return of a goroutine, the resumption of a goroutine after ANY wake-up (it observes exactly the result its
+   partner, close or the timer left for it), print, Goexit, Gosched.  (C03_running_wf supplies: the running goroutine exists,
+   has not exited, is not registered as blocked.)  Missing: the step in which a goroutine itself executes
+   send / receive / range / close / select / go, and the timer callback. *)
+Theorem C03_running_wf : forall prog st, reachable repaired prog st ->
+  forall g, md st = MRun g -> g < length (gors st) /\ g_exit (get_g st g) = false /\ g_blocked (get_g st g) = None.
+Proof. exact (fun prog st => running_wf repaired prog st repaired_fix). Qed.
+Print Assumptions C03_running_wf.
+
+Theorem C03_impl_refines_spec_partial : forall prog st, reachable repaired prog st -> covered st ->
+  ssteps prog (abs st) (actions_of repaired prog st)
+  = Some (abs (impl_step repaired prog st), new_events st (impl_step repaired prog st)).
+Proof. exact (fun prog st R => impl_refines_spec_covered repaired prog st (running_wf repaired prog st repaired_fix R)). Qed.
+Print Assumptions C03_impl_refines_spec_partial.
+
+(* The reference LTS itself: what it allows and what it forbids (sanity of the spec, by evaluation). *)
+Example C03_spec_rendezvous :
+  let prog := {| p_caps := [0]; p_scripts := [[Go 1; Send 1 7%N]; [Recv 1]] |} in
+  (* go; the child arrives first and parks; main's send meets it; both observe; both return *)
+  match ssteps prog (sinit prog) [AOp 0 0; AObs 0; APark 1; ARv 0 0 1 0; AObs 0; AObs 1; AFin 0; AFin 1] with
+  | Some (s, evs) => evs = [(0, EvGo 1); (0, EvSend); (1, EvRecv 7%N true)] /\ quiescent s = true
+  | None => False
+  end.
+Proof. vm_compute. split; reflexivity. Qed.
+
+Example C03_spec_forbids :
+  let p1 := {| p_caps := [0; 1]; p_scripts := [[Recv 1]] |} in
+  let p2 := {| p_caps := [1]; p_scripts := [[Send 1 5%N; Select [CRecv 1; CDefault]; Send 0 1%N]] |} in
+  let p3 := {| p_caps := [1]; p_scripts := [[Close 1; Close 1]] |} in
+  (* receive from an empty open channel cannot complete; nor can it rendezvous with itself *)
+  sstep p1 (sinit p1) (AOp 0 0) = None /\ sstep p1 (sinit p1) (ARv 0 0 0 0) = None /\
+  (* after the send the buffered value must be received: the default case is not allowed, parking neither *)
+  (match ssteps p2 (sinit p2) [AOp 0 0; AObs 0] with
+   | Some (s, _) => sstep p2 s (AOp 0 1) = None /\ sstep p2 s (APark 0) = None /\
+                    (exists s', sstep p2 s (AOp 0 0) = Some (s', []))
+   | None => False end) /\
+  (* the second close panics; a send on the nil channel never completes *)
+  (match ssteps p3 (sinit p3) [AOp 0 0; AObs 0; AOp 0 0; AObs 0] with
+   | Some (_, evs) => evs = [(0, EvClose); (0, EvPanic PCloseClosed)]
+   | None => False end) /\
+  (match ssteps p2 (sinit p2) [AOp 0 0; AObs 0; AOp 0 0; AObs 0] with
+   | Some (s, evs) => evs = [(0, EvSend); (0, EvSel 0 (Some (5%N, true)))] /\ sstep p2 s (AOp 0 0) = None /\
+                      (exists s', sstep p2 s (APark 0) = Some (s', []))
+   | None => False end).
+Proof. vm_compute. repeat split; eauto. Qed.
 
 (* Non-vacuity: a reachable state in which a sender and a receiver are queued and a value is buffered. *)
 Example C03_nonvacuous :
